@@ -891,6 +891,7 @@ def check_c15(tier, seed):
                 [{"p": "", "u": "http://e.org/default/", "ps": ["a", "é"], "us": [], "pat": None}]]      # empty canonical prefix
     ctx_idx = [calls.conv(r, ":") for r in ctx_recs]
     ctx_extra = ctx_idx[2]
+    ctx_empty = calls.conv([], ":")          # a converter without records is still a context: it knows no prefix
 
     def add_build(cls, p, ident, name, ci):
         ctx = calls.conv_objs[ci - 1] if ci else None
@@ -994,13 +995,15 @@ def check_c15(tier, seed):
             for p in prefixes:
                 for ident in idents:
                     for name in names:
-                        for ci in (0, ctx_idx[k], ctx_extra):
+                        for ci in (0, ctx_idx[k], ctx_extra, ctx_empty):
                             add_build(cls, p, ident, name, ci)
                         for sep in (":", "::", "|"):
                             for glue in (sep, ""):
                                 add_from_curie(cls, p + glue + ident, sep, name, 0)
                     add_from_curie(cls, p + ":" + ident, ":", cm[9], ctx_idx[k])
                     add_from_curie(cls, p + ":" + ident, ":", cm[9], ctx_extra)
+                    add_from_curie(cls, p + ":" + ident, ":", cm[9], ctx_empty)
+                    add_validate(cls, p + ":" + ident, ctx_empty)
                     add_validate(cls, p + ":" + ident, ctx_extra)
                     add_validate(cls, p + ":" + ident, 0)
                     add_validate(cls, p + ":" + ident, ctx_idx[k])
